@@ -31,6 +31,7 @@ leaving app.allocation) and the merge is heapq.merge over every sub-queue plus
 the own queue; C06.7 an explicit priority 0 is honoured. Fourth round: C06.5
 the join with the given allocation happens on every path of add_app; C06.7 the
 assignment table is rebuilt by every load_allocations.
+Fifth round: C06.2 the setter of the utilisation cap stores a given value whatever it is and falls back to the default only under is None; C06.7 an allocations event reads the assignment table again before the instances are re-assigned, and always re-assigns them.
 Does NOT decide rank monotonicity and per-allocation order through the
 recursive re-scored merge (numeric, depends on the whole tree) - the larger
 half of the property.
